@@ -138,6 +138,21 @@ def cases(tier):
                         yield c
 
 
+    # the mutation root type is ALSO the query root type: a mutation operation still runs serially
+    for combo in itertools.permutations(range(5), 2):
+        if tier == "quick" and combo[0] > combo[1] and combo != (1, 0):
+            continue
+        coords = []
+        for i in combo:
+            for c in BLOCKS[i][1]:
+                if c not in coords:
+                    coords.append(c)
+        parts = [BLOCKS[i][0] for i in combo]
+        keys = [p.split(":")[0].split(" ")[0].split("(")[0] for p in parts]
+        for a in _assignments(coords, tier, 2)[1:3]:
+            yield {"query": "mutation { %s }" % " ".join(parts), "keys": keys, "custom": dict(zip(coords, a)), "sdl": "shared-root", "wrapping": "shared-root"}
+
+
 def _key(obs):
     return (obs["status"], obs.get("data"), json.dumps(obs.get("errors")), obs.get("exc"))
 
